@@ -511,6 +511,30 @@ theorem C15_call_after_history_is_fresh {V : Type} [PyVal V] (i : Inst V) (sel :
     den (opCfg (runHistory i (history.map (Op.call sel))) (.call sel args)) x = den (opCfg i (.call sel args)) x :=
   VM.C15_call_after_history_is_fresh i sel S hS hwf history args x
 
+/-- C15 / C11, general form: after ANY history of operations on an instance — calls and executor runs with any closed
+    selections and any arguments, `setup()` invocations with any closed selections, succeeding or failing — a call
+    computes, on every node of its own (closed) selection, exactly what it computes on the instance the history started
+    from.  (`ClosedSel`: a selected node's references into the setup region are selected too — decided by `closedSelB`,
+    which the history driver evaluates on every selection it computes; every target / ancestor selection is closed.) -/
+theorem C15_call_after_any_history {V : Type} [PyVal V] (ops : List (COp V)) (i : Inst V) (S : TM.Node → Bool)
+    (hR : SetupRegion i i.dag.nodes S) (hwf : ∀ (j : Inst V) (op : Op V), WF (opCfg j op))
+    (hops : ∀ o ∈ ops, ClosedSel i S o.q) (q2 : TM.Node → Bool) (hq2 : ClosedSel i S q2) (args : List V) (x : TM.Node)
+    (hx : q2 x = true) :
+    den (opCfg (runHistory i (ops.map (COp.toOp i.dag.nodes))) (.call (i.dag.nodes.filter q2) args)) x
+      = den (opCfg i (.call (i.dag.nodes.filter q2) args)) x :=
+  VM.C15_call_after_any_history ops i S hR hwf hops q2 hq2 args x hx
+
+/-- on the setup region a closed sub-selection computes what the whole table computes (sub-graph runs and
+    `setup(target_nodes=…)` give a setup node the value a whole-DAG call gives it) -/
+theorem C11_sub_selection_same_setup_values {V : Type} [PyVal V] (i : Inst V) (S q : TM.Node → Bool) (init : Results V)
+    (hS : regionClosedB i.dag.recOf i.dag.nodes S = true) (hq : ClosedSel i S q) (x : TM.Node)
+    (hSx : S x = true) (hx : q x = true ∨ x ∉ i.dag.nodes) :
+    den (runCfg i (i.dag.nodes.filter q) init) x = den (runCfg i i.dag.nodes init) x :=
+  VM.sub_selection_den i S q init hS hq x hSx hx
+
+theorem C15_closedSel_decidable {V : Type} [PyVal V] (i : Inst V) (S q : TM.Node → Bool) :
+    closedSelB i S q = true ↔ ClosedSel i S q := VM.closedSelB_iff i S q
+
 -- non-vacuity: a table with a setup node (0), a parameter holder (2) and a node (1) reading both has a setup region
 example : SetupRegion (V := VD.Val)
     ⟨⟨[0, 1], fun n => if n = 1 then ⟨"f", [⟨0, []⟩, ⟨2, []⟩], [], none⟩ else ⟨"s", [], [], none⟩,
